@@ -75,8 +75,15 @@ def cmd_run(sid: str, checks: list[str], tier: str = "quick") -> dict:
             # keep a patch that applies to the current HEAD
             r = sh(f"git -C {REPO} diff -- pyjelly")
             open(os.path.join(d, "patch.diff"), "w").write(r.stdout)
-        r = sh([PY, os.path.join(d, "demo.py"), REPO], timeout=600)
-        res["demo_patched_rc"] = r.returncode
+        rcs = []
+        for hs in ("0", "1", "2", "3"):  # some demonstrations depend on rdflib's set order
+            r = sh([PY, os.path.join(d, "demo.py"), REPO], timeout=600,
+                   env={**os.environ, "PYTHONHASHSEED": hs})
+            rcs.append(r.returncode)
+            if r.returncode:
+                break
+        res["demo_patched_rc"] = max(rcs)
+        res["demo_patched_rc_by_hashseed"] = rcs
         r = sh(f"cd {REPO} && {PY} -m pytest -q -p no:cacheprovider --timeout=900 2>&1 | tail -1")
         res["tests"] = r.stdout.strip()[-120:]
         for c in checks:
